@@ -10,6 +10,7 @@ import (
 	"regexp"
 	"sort"
 	"strings"
+	"sync"
 	"time"
 )
 
@@ -108,6 +109,40 @@ func labelMatch(labels []string, o *Obligation) bool {
 	return false
 }
 
+// claimedByOtherProp reports whether some other prop file lists function fn
+// with a label list that claims obligation o.
+func claimedByOtherProp(verif, self, fn string, o *Obligation) bool {
+	otherPropsOnce.Do(func() {
+		files, _ := filepath.Glob(filepath.Join(verif, "props", "C*.prop"))
+		for _, f := range files {
+			ps, err := loadProp(f)
+			if err != nil {
+				continue
+			}
+			if ps.ID == "" {
+				ps.ID = strings.TrimSuffix(filepath.Base(f), ".prop")
+			}
+			otherProps = append(otherProps, ps)
+		}
+	})
+	for _, ps := range otherProps {
+		if ps.ID == self {
+			continue
+		}
+		for _, pf := range ps.Funcs {
+			if pf.Name == fn && labelMatch(pf.Labels, o) {
+				return true
+			}
+		}
+	}
+	return false
+}
+
+var (
+	otherProps     []*PropSpec
+	otherPropsOnce sync.Once
+)
+
 type finding struct {
 	Property   string
 	Obligation string
@@ -150,6 +185,8 @@ func main() {
 		os.Exit(cmdCheck(os.Args[2:]))
 	case "replay":
 		os.Exit(cmdReplay(os.Args[2:]))
+	case "audit":
+		os.Exit(cmdAudit(os.Args[2:]))
 	default:
 		fmt.Fprintln(os.Stderr, "unknown command")
 		os.Exit(2)
@@ -223,6 +260,7 @@ func cmdCheck(args []string) int {
 	var funcsUnderContract []string
 	var bindingFailures []string
 	infra := false
+	orphans := 0
 	for _, pf := range ps.Funcs {
 		fn := prog.Funcs[pf.Name]
 		fc := specs.contractFor(pf.Name)
@@ -245,8 +283,30 @@ func cmdCheck(args []string) int {
 		for _, o := range vc.obls {
 			if labelMatch(pf.Labels, o) {
 				items = append(items, oblItem{vc, o})
+				continue
+			}
+			// Soundness of label lists: a clause that proofs ASSUME (a
+			// postcondition, a loop invariant, a frame, a channel invariant)
+			// must be PROVED under some property. If no prop file claims it,
+			// every property that lists the function has to prove it
+			// ("orphan" clause). Clauses labelled [abs] are declared
+			// abstractions (uninterpreted definitions of recursive helpers):
+			// they are recorded as trusted, never silently assumed.
+			if !assumptionBearing(o.Kind) {
+				continue
+			}
+			if o.Label == "abs" {
+				vc.trusted["declared abstraction clause (assumed, not proved) "+pf.Name+" ensures[abs] "+truncate(o.Src, 120)] = true
+				continue
+			}
+			if !claimedByOtherProp(*verif, ps.ID, pf.Name, o) {
+				items = append(items, oblItem{vc, o})
+				orphans++
 			}
 		}
+	}
+	if orphans > 0 && *verbose {
+		fmt.Fprintf(os.Stderr, "govc: %d clause obligations outside the label lists are claimed here because no other property proves them\n", orphans)
 	}
 	// lemmas used by the functions under contract are proved in the same run
 	for _, vc := range vcs {
